@@ -277,7 +277,7 @@ fn build_cases(seed: u64, tier: Tier, b: &Budget) -> Vec<Case> {
         }
     }
     // (c) repository grammars combined with a generated tie-oriented sub-grammar
-    let small: Vec<&(String, String)> = corpus.iter().filter(|(n, t)| t.len() < 6_000 && !heavy.contains_key(n)).collect();
+    let small: Vec<&(String, String)> = corpus.iter().filter(|(n, t)| t.len() < 2_500 && !heavy.contains_key(n)).collect();
     for n in 0..b.n_mixed {
         let mut rng = Rng::for_run(seed, ENGINE_ID, (2u64 << 32) + n as u64);
         if small.is_empty() {
@@ -287,7 +287,9 @@ fn build_cases(seed: u64, tier: Tier, b: &Budget) -> Vec<Case> {
         let g = gen::generate(&mut rng);
         let Some(text) = gen::mix_with_corpus(ctext, &g) else { continue };
         let mut opts = draw_opts(&mut rng, tier == Tier::Thorough);
-        opts.max_k = opts.max_k.clamp(2, 4);
+        // the combination can blow the LL(k) analysis up (parol-exp.par + a sub-grammar at k = 4
+        // did not finish within 15 minutes): small repository grammars and k <= 3 only
+        opts.max_k = opts.max_k.clamp(2, 3);
         let keys = (0..b.n_keys).map(|_| (rng.next_u64(), rng.next_u64())).collect();
         cases.push(Case {
             id,
